@@ -234,7 +234,8 @@ def ob_if(sort, w=8, tier="quick", annotated=False):
 
 # ---- algorithm.simplify (explicit simplification keeps annotations) --------------------------------
 
-def ob_algo_simplify(tier="quick"):
+def ob_algo_simplify(tier="quick", shape="add"):
+    """shape: the expression is a bit-vector sum (`add`) or a conjunction of two constraints (`and` - what a solver hands to simplify)"""
     from claripy.errors import BackendError
     proxies.set_iw(24)
 
@@ -259,15 +260,29 @@ def ob_algo_simplify(tier="quick"):
             def __setitem__(self, k, v):
                 writes.append((k, v))
                 dict.__setitem__(self, k, v)
+
+            def setdefault(self, k, v=None):
+                if not dict.__contains__(self, k):
+                    self[k] = v
+                return dict.__getitem__(self, k)
+
+            def update(self, *a, **kw):
+                for k, v in dict(*a, **kw).items():
+                    self[k] = v
         cache = ns["simplification_cache"] = GhostCache()
-        e = pick_annotations(SN.new_node(("bv", 8), "root_e"), "e")
+        srt = ("bv", 8) if shape == "add" else ("bool",)
+        e = pick_annotations(SN.new_node(srt, "root_e"), "e")
         e.is_leaf = lambda: False
         # shape: a binary node whose children carry annotations; Base.__new__ already propagated the children's
         # relocatable annotations to e (assumed as the constructor contract, proved bounded in the composition run)
-        k1 = pick_annotations(SN.new_node(("bv", 8), "k1"), "k1")
-        k2 = pick_annotations(SN.new_node(("bv", 8), "k2"), "k2")
-        e._set_shape("__add__", (k1, k2))
-        c.assume(e.den == k1.den + k2.den)
+        k1 = pick_annotations(SN.new_node(srt, "k1"), "k1")
+        k2 = pick_annotations(SN.new_node(srt, "k2"), "k2")
+        if shape == "add":
+            e._set_shape("__add__", (k1, k2))
+            c.assume(e.den == k1.den + k2.den)
+        else:
+            e._set_shape("And", (k1, k2))
+            c.assume(e.den == z3.And(k1.den, k2.den))
         # requires (contract of Base.__new__, which built e): e carries the relocatable annotations of its children
         extra = [a for k in (k1, k2) for a in k._relocatable_annotations if a not in e._annos]
         e._annos = tuple(e._annos) + tuple(dict.fromkeys(extra))
@@ -306,7 +321,14 @@ def ob_algo_simplify(tier="quick"):
         # so that a later call answered from the cache (the `hit` paths above) is correct too
         for k, v in writes:
             if not (k == e.hash()):
-                c.fail("algorithm.simplify/cache-key", "an entry was stored under a key other than the expression's hash", kind="C07")
+                # an entry for another expression: it must be that expression's own simplification (the cache is global: the next
+                # simplify() of that expression returns it)
+                other = next((n for n in (k1, k2) if k == n.hash()), None)
+                if other is None or not isinstance(v, SN.SymNode):
+                    c.fail("algorithm.simplify/cache-key", "an entry was stored under a key that is not the hash of an expression at hand", kind="C07")
+                else:
+                    c.check("algorithm.simplify/cache-invariant-meaning[other-expression]", v.den == other.den,
+                            "an entry was stored for ANOTHER expression (an operand) whose meaning it does not have: the next simplify() of that expression returns it")
                 continue
             if not isinstance(v, SN.SymNode):
                 c.fail("algorithm.simplify/cache-invariant", f"a {type(v).__name__} was stored in the cache")
@@ -335,7 +357,16 @@ def ob_algo_simplify(tier="quick"):
                     bad.append(f"call #{i + 2} of simplify({e!r} annotated with {a!r}) returned {r!r} with annotations {r.annotations}")
         if bad:
             return {"reproduced": True, "text": "; ".join(bad[:2])}
-        return {"reproduced": False, "text": "repeated simplify() keeps the annotations on the real code"}
+        # entries stored for OTHER expressions: simplify a conjunction, keep the result alive, then simplify each conjunct on its own
+        p, q = x == 5, y == x + 1
+        keep.append(claripy.simplify(claripy.And(p, q)))
+        for cj in (p, q):
+            r = claripy.simplify(cj)
+            s = claripy.Solver()
+            s.add(r != cj)
+            if s.satisfiable():
+                return {"reproduced": True, "text": f"after simplify(And({p!r}, {q!r})) = {keep[-1]!r}, simplify({cj!r}) returns {r!r}, which is not equivalent to it"}
+        return {"reproduced": False, "text": "repeated simplify() keeps the annotations, and the conjuncts of a simplified conjunction still simplify to themselves, on the real code"}
 
     res = explore(body, {"budget_s": 900, "max_depth": 2000, "max_paths": 2000000, "replay": native,
                          "anno_universe": UNIVERSE[:3] if tier == "quick" else UNIVERSE})
